@@ -25,6 +25,9 @@ EXPLANATION += (
     ' ADDED: For anticorrelated / correlated diagonal ids the bound must be exactly n_il + n_xl - 1, resp. -n_xl < id < n_il (polynomial comparison). C14.2: a public method may pass access_padding=True only around values derived from its own checked parameters; a bare padded extent as an argument is a violation. C14.5: a failed bounds guard of the read API raises IndexError.'
 )
 EXPLANATION += (
+    ' ADDED (round 4): C14.7 - every look-up self.variant_headers[k][i] in gen_trace_header is preceded on every path by read_variant_headers() of the same call (the call that loads and, for irregular files, asserts the compacted representation): skipping it when the key is cached lets an array cached padded by an earlier call be indexed by a trace ordinal.'
+)
+EXPLANATION += (
     ' C14.1 also: an argument that is re-mapped (p = g(p)) before any bounds check is reported unless g is a sanitiser - later guards bound the mapped value, not the argument. C14.6: the diagonal-length functions, accepted above as real extents, are themselves decided (rule of C02.7).'
 )
 ASSUMPTIONS = [
